@@ -598,6 +598,8 @@ package fsm
 //@   modifies p.fs.vHas, p.fs.opened
 //@ iface vfs.FS.Stat
 //@   assumed
+//@   results info, err
+//@   ensures err == nil ==> info != nil
 //@   modifies nothing
 //@ func prometheus.Register
 //@   assumed
@@ -754,17 +756,22 @@ package fsm
 
 // ---- installing a snapshot: build a new DB directory, switch `current` durably, swap, clean up
 
-//@ trustframe "io" "fmt"
+//@ trustframe "io" "fmt" "io/fs"
 //@ func binary.Read<*uint64>
 //@   assumed
 //@   params r, order, data
 //@   results err
 //@   modifies *asType(data, *uint64), r.rest
 // Ingest links the SST files into the (new, private) DB: its view changes, bookkeeping values keep their 8-byte form
+// Ingest links the files and makes the link and the manifest edit durable, but relies on the caller to
+// have fsynced the files' CONTENT; afterwards the DB is "filled"
+//@ ghostfield any.ingested Bool
 //@ func pebble.(*DB).Ingest
 //@   assumed
 //@   params d, paths
 //@   requires d != nil
+//@   requires [C04.ingest.synced+C08] forall j int :: 0 <= j && j < len(paths) ==> world.syncedPath[paths[j]]
+//@   ensures result == nil ==> d.ingested
 //@   ensures (d.vP[bytesOf(fsm.sysLocalIndex)] ==> blen(d.vV[bytesOf(fsm.sysLocalIndex)]) == 8) && (d.vP[bytesOf(fsm.sysLeaderIndex)] ==> blen(d.vV[bytesOf(fsm.sysLeaderIndex)]) == 8)
 //@   modifies d.vP, d.vV
 // Typestate of a DB handle: lazyReaders = lazily consumed range streams handed out over this handle
@@ -788,11 +795,14 @@ package fsm
 //@   requires s != nil && s.fsm != nil && s.fsm.fs != nil && s.fsm.log != nil && s.fsm.metrics != nil && r != nil && parentOf(s.fsm.dirname) != s.fsm.dirname
 //@   requires [inv] recoverable(s.fsm.fs, s.fsm.dirname) && (s.fsm.fs.dCur[s.fsm.dirname] != "" ==> s.fsm.fs.vHas[pjoin(s.fsm.dirname, s.fsm.fs.dCur[s.fsm.dirname])]) && s.fsm.fs.vCur[s.fsm.dirname] == s.fsm.fs.dCur[s.fsm.dirname] && s.fsm.fs.dCur[s.fsm.dirname] != "current.updating"
 //@   before pebble.ReplaceCurrentDBFile assert [C08.install.opened+C04] fs.opened[pjoin(dir, fs.updName[dir])]
+// `current` is switched only after the new DB has been filled from the stream (an install interrupted at ingest leaves the old state)
+//@   before pebble.SaveCurrentDBDirName assert [C08.install.filled+C04] db.ingested
 //@   ensures [C08.install.recoverable] recoverable(s.fsm.fs, s.fsm.dirname)
 //@   ensures [C08.install.swap] s.fsm.pebble.v != old(s.fsm.pebble.v) ==> s.fsm.fs.dCur[s.fsm.dirname] == s.fsm.fs.vCur[s.fsm.dirname] && s.fsm.fs.opened[pjoin(s.fsm.dirname, s.fsm.fs.dCur[s.fsm.dirname])]
 //@   modifies s.fsm.fs.vHas, s.fsm.fs.dHas, s.fsm.fs.dCur, s.fsm.fs.vCur, s.fsm.fs.updName, s.fsm.fs.opened, s.fsm.pebble.v, r.rest, world.syncedPath, family(G_any_vP), family(G_any_vV)
 //@   loop 0 invariant db != nil && fresh(db) && db.lazyReaders == 0 && s.fsm == old(s.fsm) && (isNilSlice(files) || fresh(files)) && (isNilSlice(buff) || fresh(buff))
 //@   loop 0 invariant s.fsm.fs.opened[dbdir] && s.fsm.fs.vHas[dbdir] && s.fsm.pebble.v == old(s.fsm.pebble.v)
+//@   loop 0 invariant forall j int :: 0 <= j && j < len(files) ==> world.syncedPath[files[j]]
 //@   loop 0 invariant forall d string :: s.fsm.fs.dCur[d] == old(s.fsm.fs.dCur[d]) && s.fsm.fs.vCur[d] == old(s.fsm.fs.vCur[d])
 //@   loop 0 invariant forall q string :: old(s.fsm.fs.dHas[q]) ==> s.fsm.fs.dHas[q]
 //@   loop 0 invariant forall q string :: old(s.fsm.fs.vHas[q]) ==> s.fsm.fs.vHas[q]
@@ -908,3 +918,65 @@ package fsm
 //@   loop 0 invariant -1 <= rangeindex && rangeindex < len(c.Command.Batch) && len(req) == len(c.Command.Batch) && fresh(req)
 //@   loop 0 invariant forall j int :: 0 <= j && j <= rangeindex ==> req[j] != nil && isNilSlice(req[j].RangeEnd) && sameSlice(req[j].Key, c.Command.Batch[j].Key)
 //@   loop 1 invariant -1 <= rangeindex && rangeindex < len(rop) && (isNilSlice(res) || fresh(res))
+
+// ---------------------------------------------------------------- Sync, ingest typestate, checkpoint format (C04, C08; round-2 seeds)
+
+// Sync: a blocking flush - when it returns without error one more flush has COMPLETED (the WAL is
+// disabled, so the flush is the only thing that makes applied entries durable)
+//@ ghostfield any.nflush Int
+//@ func pebble.(*DB).Flush
+//@   assumed
+//@   params d
+//@   ensures result == nil ==> d.nflush == old(d.nflush) + 1
+//@   ensures result != nil ==> d.nflush == old(d.nflush)
+//@   modifies d.nflush
+//@ func pebble.(*DB).AsyncFlush
+//@   assumed
+//@   modifies nothing
+//@ func (*FSM).Sync
+//@   requires p != nil && p.pebble.v != nil
+//@   ensures [C04.sync.completed] result == nil ==> p.pebble.v.nflush == old(p.pebble.v.nflush) + 1
+//@   modifies p.pebble.v.nflush
+
+// checkpoint format: the checkpoint (the point-in-time image) is taken by prepare - after a completed
+// flush, on the DB as it is at that call - and save only ships the directory prepare produced; save
+// never checkpoints or flushes (so writes applied between prepare and save cannot leak in)
+//@ ghostfield any.ncheckpoint Int
+//@ func pebble.(*DB).Checkpoint
+//@   assumed
+//@   params d, destDir, opts
+//@   ensures result == nil ==> d.ncheckpoint == old(d.ncheckpoint) + 1
+//@   modifies d.ncheckpoint
+//@ func (*checkpointContext).Close
+//@   assumed
+//@   modifies nothing
+//@ func (*checkpoint).prepare
+//@   results ctx, err
+//@   requires c != nil && c.fsm != nil && c.fsm.pebble.v != nil
+//@   ensures [C08.pit.checkpoint] err == nil ==> typeIs(ctx, *checkpointContext) && asType(ctx, *checkpointContext) != nil && c.fsm.pebble.v.ncheckpoint == old(c.fsm.pebble.v.ncheckpoint) + 1 && c.fsm.pebble.v.nflush == old(c.fsm.pebble.v.nflush) + 1
+//@   modifies c.fsm.pebble.v.ncheckpoint, c.fsm.pebble.v.nflush
+//@ iface vfs.FS.List
+//@   assumed
+//@   modifies nothing
+//@ iface vfs.FS.Open
+//@   assumed
+//@   results f, err
+//@   ensures err == nil ==> f != nil
+//@   modifies nothing
+//@ func tar.NewWriter
+//@   assumed
+//@   ensures result != nil && fresh(result)
+//@   modifies nothing
+//@ func tar.FileInfoHeader
+//@   assumed
+//@   results h, err
+//@   ensures err == nil ==> h != nil && fresh(h)
+//@   modifies nothing
+//@ func (*checkpoint).save
+//@   params c, ctx, w, stopc
+//@   results err
+//@   requires c != nil && c.fsm != nil && c.fsm.fs != nil && w != nil && typeIs(ctx, *checkpointContext) && asType(ctx, *checkpointContext) != nil
+//@   before pebble.(*DB).Checkpoint assert [C08.save.nocheckpoint] false
+//@   before pebble.(*DB).Flush assert [C08.save.noflush] false
+//@   modifies family(G_any_sdata), family(G_any_slen), family(G_any_nmsg), family(G_any_msg), family(G_any_rest), family(G_any_fmtByte)
+//@   loop 0 invariant tw != nil && -1 <= rangeindex && rangeindex < len(list) && c.fsm == old(c.fsm) && c.fsm.fs == old(c.fsm.fs)
